@@ -252,6 +252,24 @@ CHECKS = {
         "No scheduler present; exit status of the scripts is not used.",
         "DESIGN.md section 4, C16",
     ),
+    "C17": (
+        "exploration",
+        "property-based testing (Hypothesis) with artist readers: the "
+        "returned matplotlib Figure is decoded and compared with a plain "
+        "numpy reference",
+        "Generated datasets (NaN/inf patterns, numeric and str z, 1-14 "
+        "series, row/col grids, x as variable, several y variables, error "
+        "bars, colour variables) and plot options for lineplot, scatter, "
+        "histogram, heatmap and auto_lineplot; Line2D / PathCollection / "
+        "Polygon / QuadMesh artists are read back: series count, order, "
+        "labels, exact (x, y) data, error-bar segments, shared colour "
+        "normalisation, histogram densities on common edges, mesh array and "
+        "cell centres, panel titles, line colours against matplotlib's own "
+        "colour maps, and the input dataset must be unchanged.",
+        "Artists, not pixels; matplotlib backend only; default colour map "
+        "checked relationally.",
+        "DESIGN.md section 4, C17",
+    ),
     "C19": (
         "exploration",
         "property-based testing (Hypothesis) against an exact Fraction "
